@@ -5,6 +5,10 @@ type C15Case struct {
 	Mode    string   `json:"mode"`  // proc | testmode
 	Steps   []string `json:"steps"`
 	ConcOps int      `json:"concOps"` // concurrent put/get phase through A and the first reattached client (0 = none)
+	// VersionSkew (testmode): the server registers its set under version 3 only (VersionedPlugins) and reports
+	// that version in its reattach config; the reattaching clients have their set in Plugins under handshake
+	// version 1. A reattach does not negotiate: they still dispense from the set they configured
+	VersionSkew bool `json:"versionSkew,omitempty"`
 }
 
 type C15Step struct {
